@@ -538,6 +538,22 @@ def _small_rules(repo, L):
     early = [x for x in walk_shallow(loops[0]) if isinstance(x, ast.Break | ast.Return)]
     L.check(not early, "R8", wc.short, "no break/return inside the loop over the assemblies", f"the loop over the output assemblies is left by '{norm(early[0]) if early else ''}': curated assemblies listed after a non-curated one (e.g. the contaminants) get no chromosome-list CSV", wc.loc(early[0]) if early else wc.loc())
 
+    L.rule("R10", "chromosomes are ranked by sequence length (gaps not counted)")
+    cg = repo.cls("ChrGroup")
+    lf = cg.methods.get("length_of_first_haplotype")
+    if lf is None:
+        raise AnalysisError("anchor ChrGroup.length_of_first_haplotype vanished")
+    attrs = [n.attr for n in walk_shallow(lf.node) if isinstance(n, ast.Attribute) and n.attr in ("length", "fragments_length", "gaps_length")]
+    over_frags = [g for g in walk_shallow(lf.node) if isinstance(g, ast.GeneratorExp | ast.ListComp) and len(g.generators) == 1 and isinstance(g.generators[0].iter, ast.Call) and isinstance(g.generators[0].iter.func, ast.Attribute) and g.generators[0].iter.func.attr == "fragments" and not g.generators[0].ifs and isinstance(g.generators[0].target, ast.Name) and norm(g.elt) == f"{g.generators[0].target.id}.length"]
+    if over_frags and set(attrs) <= {"length"} and len(attrs) == len(over_frags):
+        L.ok("R10", lf.short, "size of a chromosome group = Σ length over fragments() of the first haplotype's scaffolds", lf.loc())
+    elif "fragments_length" in attrs and "length" not in attrs:
+        L.ok("R10", lf.short, "size of a chromosome group = Σ fragments_length of the first haplotype's scaffolds", lf.loc())
+    elif attrs and set(attrs) <= {"length"} and not any(isinstance(n, ast.Call) and isinstance(n.func, ast.Attribute) and n.func.attr == "fragments" for n in walk_shallow(lf.node)):
+        L.fail("R10", lf.short, "the size that ranks the chromosomes sums scaffold.length, which counts gap rows: a gap-rich scaffold outranks one with more sequence, so the numbering is not in non-increasing order of sequence length", lf.loc(), witness={"scaffolds": "A: 900 bp sequence + 50 bp gaps, B: 600 bp sequence + 500 bp gaps"})
+    else:
+        raise AnalysisError(f"{lf.short}: the size measure ({sorted(set(attrs))}) is not a form understood")
+
     L.rule("R9", "the chromosome-name tag pattern accepts the documented kinds of name tag and nothing that is a haplotype or routing tag")
     namer = repo.cls("ScaffoldNamer")
     mk = namer.methods.get("make_scaffold_name")
